@@ -1,7 +1,7 @@
 SPECIFICATION Spec
 CONSTANTS
-  Mode = "matrix"
-  ProtoSets <- QProtoSets
+  Mode = "faults"
+  ProtoSets <- SingleProtoSets
   CodecSeqs <- QCodecSeqs
   CompSeqs <- QCompSeqs
   ClientForms <- QForms
@@ -11,7 +11,7 @@ CONSTANTS
   MaxMsgs = 2
   EndCodes <- OkOnly
   HttpStatuses <- NoStatuses
-  FlagValues <- QFlags
+  FlagValues <- TFlags
   Emit = TRUE
 INVARIANT TypeOK
 INVARIANT EmitInv
